@@ -77,6 +77,7 @@ func (c03) Cases(tier string, seed uint64) []fw.Case {
 		cases = append(cases, baseCases(b)...)
 	}
 	cases = append(cases, genCases(tier, seed)...)
+	cases = append(cases, flowCases(tier, seed)...)
 	cases = append(cases, corpusCases()...)
 	return cases
 }
